@@ -9,7 +9,7 @@ Binding (B -> A): the verif FileOp hook records the real writer's operation log 
 histories on the real v2.FileWriter and on the real chronicler.  EVERY cut of that log is materialised: each
 operation boundary, and for each write every byte prefix (all offsets up to `maxall` bytes, a boundary-aware sample
 above).  Each image is loaded with the real FileReader / chronicler Load; for the boundaries and three offsets per
-torn write the recovery script (reopen, two writes, sync, delete, close, load) runs on the real code.  The
+torn write the recovery script (reopen, two writes, sync, load, delete, close, load) runs on the real code.  The
 observations are attached to the trace line of the interrupted call and TLC validates every cut as a branch of the
 history: call, n FileSteps, Crash(tear), observed load = Load(disk'), then the recovery lines.
 """
@@ -28,7 +28,8 @@ def run(ctx):
     thorough = ctx.tier == "thorough"
     ctx.assumptions += [
         "crash model of the property: the file holds a prefix of the engine's own operation log plus a byte prefix of the write in flight; a completed fsync makes everything before it durable; no reordering of unsynced writes",
-        "the recovery script runs for every operation boundary and for the first / middle / last materialised offset of every torn write; all other offsets are loaded only (as built, a load behind appended garbage allocates up to 4 GiB per read)",
+        "the recovery script runs for every operation boundary, every byte length of a torn block header and the first / middle / last materialised offset of every other torn write; all other offsets are loaded only",
+        "as built, a load behind appended garbage takes arbitrary bytes for a block header and allocates up to 4 GiB: when the harness sees such a header it runs the real load in a child process limited to 1.5 GiB of address space and counts its out-of-memory death as a failed load",
         "histories with inline compaction (>= 100 entries) are not cut (compaction is C03)",
     ]
     binary = ctx.go_build("hydfile")
